@@ -460,6 +460,9 @@ impl Gen {
                         _ => 70_000,
                     };
                     (per_slot * (f + 1)).min(150_000)
+                } else if rng.chance(1, 5) {
+                    // medium runs: cross small counter widths / thresholds a build might choose
+                    rng.range(100, 600) as u32
                 } else {
                     rng.range(1, 50) as u32
                 };
